@@ -1,4 +1,4 @@
-\* quick: maps with up to 4 entries (3 in the two-group space), chains of up to 3 layers with up to 3 entries
+\* quick: maps with up to 4 entries (3 in the two-byte and the mixed space), chains of up to 3 layers with up to 2 entries
 SPECIFICATION Spec
 CONSTANTS B = 4
   WITH_GAPS = TRUE
@@ -14,9 +14,10 @@ CONSTANTS B = 4
   FamNames = {"cid", "tu1", "tuEdge", "tuMix"}
   ChainSpaces = {"s1"}
   MaxTop <- TopQuick
-  MaxTotal = 3
+  MaxTotal = 2
   MaxDepth = 3
   Wide = FALSE
+  WideSpaces = {}
   NotdefOn = TRUE
   MaxRect = 0
 INVARIANTS LookupOK AllOK EmbedOK CompressOK
